@@ -146,6 +146,15 @@ Definition abs_after_decode (p : string) : bool := has_upper_escape p && is_abs 
 Definition checked (chk : bool) (p : string) : bool := negb chk || inside (rel_loc (stage_a p)).
 Definition refuse_location (chk : bool) (p : string) : bool := abs_after_decode p || negb (checked chk p).
 
+(* a79f022: _location_from_template -- the path that will be RECORDED for the location (location.pathInStore.path = stage_a p)
+   is turned into a location once more (decoded again when an upper-case escape is left); that location must be inside the
+   root and must be the location that is written, otherwise the name is refused with ValueError before anything is written.
+   `wchk` = the rule is in force (false = the code before a79f022). *)
+Definition write_rule (p : string) : bool :=
+  let t := stage_a p in
+  let r := rel_loc (stage_a t) in inside r && lkey_eqb r (rel_loc t).
+Definition refuse_w (chk wchk : bool) (p : string) : bool := refuse_location chk p || (wchk && negb (write_rule p)).
+
 (* LocationFactory.fromPath(template output) + updateExtension: text kept as pathInStore, location written *)
 Definition target_text (p ext : string) : string := set_ext (stage_a p) ext.
 Definition target_loc (p ext : string) : lkey := rel_loc (target_text p ext).
@@ -306,14 +315,14 @@ Definition do_trash (s : state) (ids : list N) : state :=
   mkState (recs s) (filter (fun id => negb (memN id ids)) (live s)) (known ++ trash s) (fs s).
 
 (* ---- one operation ---------------------------------------------------------------------------------- *)
-Definition step_v (chk rchk ichk : bool) (s : state) (x : op) : state * outcome :=
+Definition step_v (chk rchk ichk wchk : bool) (s : state) (x : op) : state * outcome :=
   match x with
   | Put id fr ext c =>
       match fr with
       | FOutside => (s, Refused ValueErr)
       | FKeyErr => (s, Refused KeyErr)
       | FOk p =>
-          if refuse_location chk p then (s, Refused ValueErr) else
+          if refuse_w chk wchk p then (s, Refused ValueErr) else
           if held_any s [id] then (s, Refused Conflict)
           else
             let l := target_loc p ext in
@@ -338,7 +347,7 @@ Definition step_v (chk rchk ichk : bool) (s : state) (x : op) : state * outcome 
           match fget (fs s) src with
           | None => (s, Refused NotFound)
           | Some c =>
-              if refuse_location chk p then (s, Refused ValueErr) else
+              if refuse_w chk wchk p then (s, Refused ValueErr) else
               let l := target_loc p ext in
               if held_any s ids
               then (with_fs s (fdel (fs s) l), Refused Conflict)
@@ -375,7 +384,7 @@ Definition step_v (chk rchk ichk : bool) (s : state) (x : op) : state * outcome 
   end.
 
 (* the code as it is *)
-Definition step : state -> op -> state * outcome := step_v true true true.
+Definition step : state -> op -> state * outcome := step_v true true true true.
 
 Definition run (s : state) (h : list op) : state := fold_left (fun st x => fst (step st x)) h s.
 
@@ -434,6 +443,22 @@ Definition live_trash_disjoint (s : state) : bool := forallb (fun id => negb (me
 (* put: the checked text does not resolve to the root itself *)
 Definition put_nonroot (x : op) : bool :=
   match x with Put _ (FOk p) _ _ => negb (lkey_eqb (rel_loc (stage_a p)) []) | _ => true end.
+
+(* the record a put / an ingest creates, read back, names the location that was written *)
+Definition put_record (p ext : string) : string := stage_a (strip_frag (join_slash (target_loc p ext))).
+Definition ingest_leads_back (p ext : string) : bool := lkey_eqb (loc (target_text p ext)) (target_loc p ext).
+Definition put_leads_back (p ext : string) : bool := lkey_eqb (loc (put_record p ext)) (target_loc p ext).
+
+(* per-operation condition (no state involved): every record the operation can create resolves inside the root *)
+Definition op_recs_ok (x : op) : bool :=
+  match x with
+  | Put _ (FOk p) ext _ => refuse_w true true p || negb (inside (target_loc p ext)) || inside (loc (put_record p ext))
+  | Ingest _ _ (FOk p) ext _ => refuse_w true true p || inside (loc (target_text p ext))
+  | IngestDirect _ a => is_abs a || inside (loc a)
+  | IngestInPlace _ rel => inside (loc (join_slash (rel_loc (stage_a rel))))
+  | IngestZip members z _ => forallb (fun m => inside (loc (z ++ "#zip-path=" ++ snd m))) members
+  | _ => true
+  end.
 
 (* the staging file a move ingest removes at the caller's request *)
 Definition moved_source (s : state) (x : op) (l : lkey) : bool :=
